@@ -59,6 +59,9 @@ struct JSON {
         ~JSONParser()                             = delete;
 
         static ValueT Parse(Stream_T &stream, const Char_T *content, SizeT length) {
+            // A parse that failed inside a string leaves its decoded part in the scratch stream.
+            stream.Clear();
+
             if (length != 0) {
                 SizeT offset = 0;
                 StringUtils::TrimLeft(content, offset, length);
